@@ -115,7 +115,8 @@ type task struct {
 	lockWait  bool        // enabled is a simulated-lock predicate
 	since     time.Time   // when it started waiting on the lock
 	site      string
-	depth     int // Enter nesting for foreign tasks
+	lastYield string // last instrumented source site the task passed
+	depth     int    // Enter nesting for foreign tasks
 	foreign   bool
 	nchild    map[string]int
 	prio      int
@@ -459,6 +460,9 @@ func Yield(site string) {
 	}
 	isHolder := s.holder == t
 	s.Yields++
+	if len(site) > 4 && site[:4] == "pkg/" {
+		t.lastYield = site
+	}
 	over := s.Yields > s.MaxYield
 	s.mu.Unlock()
 	if over {
@@ -592,7 +596,36 @@ func (s *Sim) LockBlocked(d time.Duration) []string {
 	var out []string
 	for _, t := range s.parked {
 		if t.lockWait && t.enabled != nil && !t.enabled() && time.Since(t.since) >= d {
-			out = append(out, t.key+" @"+t.site)
+			out = append(out, t.lastYield)
+		}
+	}
+	sort.Strings(out)
+	return out
+}
+
+// LockWaiters lists "task key @ source site" of every task waiting on a simulated lock.
+func (s *Sim) LockWaiters() []string {
+	s.mu.Lock()
+	defer s.mu.Unlock()
+	var out []string
+	for _, t := range s.parked {
+		if t.lockWait && t.enabled != nil && !t.enabled() {
+			out = append(out, t.key+" "+t.site+" after "+t.lastYield)
+		}
+	}
+	sort.Strings(out)
+	return out
+}
+
+// LockWaitSites returns the sorted source sites (file:line of the last statement before the lock
+// call) of the tasks waiting on a simulated lock.
+func (s *Sim) LockWaitSites() []string {
+	s.mu.Lock()
+	defer s.mu.Unlock()
+	var out []string
+	for _, t := range s.parked {
+		if t.lockWait && t.enabled != nil && !t.enabled() {
+			out = append(out, t.lastYield)
 		}
 	}
 	sort.Strings(out)
